@@ -36,6 +36,15 @@ def linear_system(rng):
             return s
 
 
+def add_parameters(ind, system, rng):
+    """parameters section: absent / complete / partial (values are optional in the documented format)"""
+    q = rng.random()
+    if not system["params"] or q < 0.4:
+        return
+    keep = list(system["params"]) if q < 0.6 else [p for p in system["params"] if rng.random() < 0.5]
+    ind["parameters"] = {p: repr(rng.choice([0.5, 1.5, 2.0, 10.0])) for p in keep}
+
+
 def run(ctx):
     rng = random.Random(ctx["seed"] * 4001 + 4)
     quick = ctx["tier"] == "quick"
@@ -53,6 +62,7 @@ def run(ctx):
             p = perms[0] if st != styles[-1] else perms[-1]
             ps = c03.permute_system(s, p) if p != tuple(range(m)) else s
             ind = U.render_spelled(ps, st, random.Random(rng.random()))
+            add_parameters(ind, ps, rng)
             tasks.append({"fn": "sysimpl.run_verdict_indep", "indict": ind, "api_timeout": 10, "timeout": 60})
             meta.append((si, st, p, ps))
         for p in perms[1:]:
